@@ -72,12 +72,21 @@ fn main() {
     // --- (2) the real partition_indices loop on small divisors with chosen hashes
     let mut small: Vec<u64> = (1..=70).collect();
     small.extend([96, 100, 127, 128, 129, 255, 256, 257, 1000, 1023, 1024, 1025, 4095, 4096, 4097, 65535, 65536, 65537]);
-    for d in small {
+    let small: Vec<(u64, u64)> = small.iter().flat_map(|d| (0..4u64).map(move |v| (*d, v))).collect();
+    for (d, variant) in small {
+        // hash lists: the value in FIRST position and runs of equal adjacent hashes matter for any
+        // per-batch state the loop may keep (caches, previous-row shortcuts)
         let mut hs: Vec<u64> = Vec::new();
-        for _ in 0..40 {
-            hs.push(*rng.pick(&edges));
-            hs.push(rng.next());
-            hs.push((rng.next() % (u64::MAX / d)).wrapping_mul(d));
+        match variant {
+            0 => hs.push(u64::MAX),
+            1 => hs.push(0),
+            2 => hs.push(*rng.pick(&edges)),
+            _ => {}
+        }
+        for _ in 0..14 {
+            let h = match rng.below(3) { 0 => *rng.pick(&edges), 1 => rng.next(), _ => (rng.next() % (u64::MAX / d)).wrapping_mul(d) };
+            for _ in 0..1 + rng.below(3) { hs.push(h); }
+            if rng.chance(1, 4) { hs.push(u64::MAX); hs.push(u64::MAX); }
         }
         hs.extend([0, 1, d - 1, d, d + 1, u64::MAX, u64::MAX / d * d, (u64::MAX / d * d).wrapping_sub(1)]);
         let r = std::panic::catch_unwind(|| hk::strength_reduced_partition_indices(d, &hs));
